@@ -955,6 +955,22 @@ entry("C20", "unit_filter_macro", file=F + "unit_system.rs", impl=r"impl<T,\s*U,
       rhs="", render=lambda sym, s_, r_, c_: "Some (%s, %s)" % (s_[1]["state"][1]["inner"][2], _R.coq_V(r_[1]) if r_[0] == "tagged" else "?"))
 entry("C20", "unit_reset", file=F + "unit_system.rs", impl=r"impl<T>\s+Reset\s+for\s+UnitSystem<T>", fn="reset", params={}, header=MACH_HDR, prims=MACH,
       script=MACH_SCRIPT, imports="Base.QR Model.Registry", cases=[dict(self=USELF, lhs="mreset (m_unit m) c si", vars="(si : St m)")], rhs="{ret.state.inner}")
+# the unit wrappers of sources and sinks (macro bodies): one pull / one sink call / the inner finalize, value re-tagged
+SRCU = REPO + "/crates/sources/src/unit_system.rs"; SNKU = REPO + "/crates/sinks/src/unit_system.rs"
+def untag(vv): return vv[1] if vv[0] == "tagged" else vv
+entry("C20", "unit_source_macro", file=SRCU, impl=r"impl<S,\s*U,\s*V>\s+Source\s+for\s+UnitSystem<S,\s*\$t<V,\s*U>>", fn="source", params={}, header=SRC_HDR, script="intros. unfold unit_source. " + SRC_SCRIPT[8:], prims=SRCP, split=True,
+      imports="Model.Sources Proofs.Translate", preamble=SRC_PRE, cases=[dict(self=st(state=st(inner=src("i"))), lhs="unit_source (pull false f) i", vars="(i : src)", fuel=1)], rhs="",
+      render=lambda sym, s_, r_, c_: "Some (%s, %s)" % ("None" if r_[1] is None else "Some " + _R.coq_V(untag(r_[1])), s_[1]["state"][1]["inner"][2]))
+def prim_snk(sym, o, args):
+    from rs2coq import coq_V
+    return ("unit",), ("obj", "snk", "(k %s %s)" % (o[2], coq_V(args[0])))
+SNK = {("snk", "sink"): prim_snk, ("snk", "finalize"): lambda sym, o, a: (("raw", "(fin %s)" % o[2]), None)}
+entry("C20", "unit_sink_macro", file=SNKU, impl=r"impl<S,\s*U,\s*V>\s+Sink<\$t<V,\s*U>>\s+for\s+UnitSystem<S,\s*\$t<V,\s*U>>", fn="sink", params={"input": ("tagged", v("x"))},
+      header="forall (S X R : Type) (k : S -> X -> S) (fin : S -> R)", prims=SNK, imports="Proofs.Translate", script="intros. reflexivity.",
+      cases=[dict(self=st(inner=("obj", "snk", "s")), lhs="unit_sink k s x", vars="(s : S) (x : X)")], rhs="{self.inner}")
+entry("C20", "unit_finalize_macro", file=SNKU, impl=r"impl<S,\s*U,\s*V>\s+Finalize\s+for\s+UnitSystem<S,\s*\$t<V,\s*U>>", fn="finalize", params={},
+      header="forall (S X R : Type) (k : S -> X -> S) (fin : S -> R)", prims=SNK, imports="Proofs.Translate", script="intros. reflexivity.",
+      cases=[dict(self=st(inner=("obj", "snk", "s")), lhs="unit_finalize fin s", vars="(s : S)")], rhs="", render=lambda sym, s_, r_, c_: _R.coq_V(untag(r_)))
 entry("C12", "reset_threshold", file=F + "classify/threshold.rs", impl=r"impl<T,\s*U>\s+Reset\s+for\s+Threshold<T,\s*U>", fn="reset", params={},
       cases=[dict(self=st(config=st(threshold=v("thr"), outputs=OUTS2)), lhs="(thr, o0, o1)", vars="thr o0 o1")], rhs="({ret.config.threshold}, {ret.config.outputs.0}, {ret.config.outputs.1})")
 
@@ -1002,6 +1018,42 @@ for rel_, exp_ in UNSAFE_EXPECT.items():
 
 # C19 re-checks the bodies of the windowed filters as well (its argument needs them to be the audited, safe code)
 ENTRIES["C19"] = list(ENTRIES["C02"]) + [e_ for e_ in ENTRIES["C03"] if e_["name"] == "moving_mean"] + list(ENTRIES["C04"]) + [e_ for e_ in ENTRIES["C05"] if e_["name"] in ("convolve", "delay")]
+
+# ---- API-surface inventory of every translated file -------------------------------------------------------
+# The obligations above re-read the bodies they know about.  What they cannot see is a NEW entry point or a replaced
+# dependency: an additional trait impl (`impl Filter<&T> for Schmitt`), an override inside a feature-gated impl that used to be
+# empty (`impl ResetMut for X {}`), a `use` line that swaps `circular_buffer::CircularBuffer` for another ring buffer, a new
+# `mod`.  For every file a property translates, the set of trait-impl headers, `use` / `mod` lines and feature-gated
+# `fn reset_mut` overrides (comments and test module stripped, whitespace normalised) must equal the inventory recorded in
+# translator/inventory.json (written from the audited tree by `bodies.py --write-inventory`, never at check time).
+INVENTORY_FILE = os.path.join(os.path.dirname(os.path.abspath(__file__)), "inventory.json")
+def file_inventory(path):
+    from rs2coq import strip_comments as _sc
+    txt = _sc(open(path).read()).split("#[cfg(test)]")[0]
+    norm = lambda t: " ".join(t.split())
+    impls = sorted(norm(m.group(0)) for m in re.finditer(r"\bimpl\b[^{;]*?\bfor\b[^{;]*?(?=\{)", txt))
+    uses = sorted(norm(m.group(0)) for m in re.finditer(r"^\s*(?:pub\s+)?(?:use|mod|extern crate)\b[^;{]*(?:\{[^}]*\})?[^;]*;", txt, re.M))
+    return {"trait_impls": impls, "use_and_mod": uses, "reset_mut_overrides": len(re.findall(r"\bfn\s+reset_mut\b", txt))}
+def files_of(pid):
+    fs = {e_["file"] for e_ in ENTRIES.get(pid, [])} | {a_["file"] for a_ in ASSERTS.get(pid, []) if a_.get("file")}
+    return sorted(f_ for f_ in fs if f_.startswith(REPO))
+def write_inventory():
+    import json
+    inv = {}
+    for pid in sorted(set(ENTRIES) | set(ASSERTS)):
+        for f_ in files_of(pid): inv[f_[len(REPO):]] = file_inventory(f_)
+    json.dump(inv, open(INVENTORY_FILE, "w"), indent=0, sort_keys=True)
+    print("inventory of %d files written to %s" % (len(inv), INVENTORY_FILE))
+def inventory_asserts():
+    import json
+    if not os.path.exists(INVENTORY_FILE): return
+    inv = json.load(open(INVENTORY_FILE))
+    for pid in sorted(set(ENTRIES) | set(ASSERTS)):
+        for f_ in files_of(pid):
+            rel = f_[len(REPO):]
+            ASSERTS.setdefault(pid, []).append(dict(name="api_surface_" + rel.replace("/crates/", "").replace("/src/", "_").replace("/", "_").replace(".rs", ""),
+                                                     file=f_, inventory=inv.get(rel), message="the trait impls / imports / reset_mut overrides of %s differ from the audited inventory" % rel))
+inventory_asserts()
 
 # ---- constants compiled into macro invocations ---------------------------------------------------------
 CONSTS = {"C18": [dict(name="hampel_factor", file=F + "hampel.rs", regex=r"impl_hampel_filter!\(\s*(f32|f64)\s*=>\s*([0-9][0-9_]*\.[0-9_]*)\s*\)", expect=2,
@@ -1300,7 +1352,17 @@ def regenerate(pid, ROOT, BUILD):
             if a.get("strip"):
                 from rs2coq import strip_comments as _sc
                 txt = _sc(txt).split("#[cfg(test)]")[0]
-            ok_ = all(re.search(rx, txt) for rx in a.get("must", [])) and not any(re.search(rx, txt) for rx in a.get("mustnot", [])) \
+            if "inventory" in a:
+                cur_ = file_inventory(a["file"])
+                ok_inv = a["inventory"] is not None and cur_ == a["inventory"]
+                if not ok_inv and a["inventory"] is not None:
+                    diff_ = []
+                    for k_ in ("trait_impls", "use_and_mod"):
+                        diff_ += ["+ " + x_ for x_ in cur_[k_] if x_ not in a["inventory"][k_]] + ["- " + x_ for x_ in a["inventory"][k_] if x_ not in cur_[k_]]
+                    if cur_["reset_mut_overrides"] != a["inventory"]["reset_mut_overrides"]: diff_.append("fn reset_mut overrides: %d (audited: %d)" % (cur_["reset_mut_overrides"], a["inventory"]["reset_mut_overrides"]))
+                    a = dict(a, message=a["message"] + ": " + " | ".join(diff_)[:600])
+            else: ok_inv = True
+            ok_ = ok_inv and all(re.search(rx, txt) for rx in a.get("must", [])) and not any(re.search(rx, txt) for rx in a.get("mustnot", [])) \
                   and all((len(re.findall(rx, txt)) if rx != "@NONTRIVIAL_UNSAFE" else
                            len(re.findall(r"\bunsafe\s*\{", txt)) - len(re.findall(r"\bunsafe\s*\{\s*self\s*\.\s*[A-Za-z_][A-Za-z0-9_]*\s*\([^(){}]*\)\s*;?\s*\}", txt))) == n_
                           for rx, n_ in (a.get("counts") or {}).items())
@@ -1326,6 +1388,8 @@ def regenerate(pid, ROOT, BUILD):
 if __name__ == "__main__":
     import sys, json
     ROOT = os.path.dirname(os.path.dirname(os.path.abspath(__file__)))
+    if sys.argv[1:] == ["--write-inventory"]:
+        write_inventory(); sys.exit(0)
     for pid in (sys.argv[1:] or sorted(set(ENTRIES) | set(CONSTS) | set(ASSERTS))):
         ok, info = regenerate(pid, ROOT, os.path.join(ROOT, "build"))
         print(pid, json.dumps({k: info[k] for k in ("obligations", "discharged", "failed", "bodies")}), info.get("logs", ""))
